@@ -185,6 +185,12 @@ def x_hist(ctx, case):
             hook = None
             if seg.get("stop_at") == k:
                 hook = top.stop
+                if seg.get("leaf_stop_first") and b.stoppable:
+                    # one underlying result has already been stopped directly (by another worker sharing it,
+                    # say) when stop() is called on the outermost object: it still has to reach the others
+                    def hook(first=b.stoppable[0], top=top):
+                        first.stop()
+                        top.stop()
             tid = None
             if seg.get("dup_ids") and k in seg["dup_ids"]:
                 tid = "t%d" % (i - 1 - seg["dup_ids"].index(k))  # same id as an earlier test of this run
@@ -411,6 +417,8 @@ def random_segment(rng):
            "mode": rng.choice(["direct", "suite"])}
     if n and rng.random() < 0.25:
         seg["stop_at"] = rng.randrange(n)
+        if rng.random() < 0.4:
+            seg["leaf_stop_first"] = True
     if n >= 2 and rng.random() < 0.2:
         seg["dup_ids"] = [rng.randrange(1, n)]  # a test loaded twice / re-run under the same id
     return seg
